@@ -10,6 +10,8 @@
 From Coq Require Import List ZArith NArith Bool.
 Import ListNotations.
 Require Import RV.Model.C10_ProofLock RV.Proof.C10_ProofLock RV.Proof.C10_NonFungible RV.Proof.C10_NonFungibleUnlock.
+Require RV.Lib.DecCore RV.Model.C25_Round.
+Require Import RV.Model.C10_Rounded RV.Proof.C10_Rounded.
 Open Scope Z_scope.
 
 (* liquid + locked (= max of the locked amounts) only changes by what is taken out or put in:
@@ -55,6 +57,29 @@ Proof. exact lock_take_never_panic. Qed.
 Theorem C10_divisibility : forall div a c r,
   (f_take div a c = Ok r \/ exists c', f_create_proof div a c = Ok c') -> 0 <= a /\ a mod unit_of div = 0.
 Proof. exact accepted_amounts_divisible. Qed.
+
+(* ---- take_advanced with a withdraw strategy ----
+   Exact is take.  Rounded(m): the requested amount x is rounded to a multiple of 10^(18-div) as
+   mode m prescribes (C25's independent specification round_spec: a multiple, less than one unit
+   away, x itself when already a multiple); an unrepresentable result is DecimalOverflow; otherwise
+   exactly the rounded amount r is taken, which succeeds iff 0 <= r <= total - max(live proofs):
+   rounding can never take funds from under a proof nor an amount off the divisibility grid. *)
+Theorem C10_withdraw_exact_is_take : forall div a c, f_take_adv div C25_Round.WExact a c = f_take div a c.
+Proof. exact take_adv_exact. Qed.
+Theorem C10_withdraw_rounded : forall c ps div m x, Good c ps -> DecCore.InF DecCore.DEC x -> 0 <= div <= 18 ->
+  let r := C25_Round.round_spec m (unit_of div) x in
+  (DecCore.in_f DecCore.DEC r = false -> f_take_adv div (C25_Round.WRounded m) x c = Err EOverflow) /\
+  (DecCore.in_f DecCore.DEC r = true ->
+     f_take_adv div (C25_Round.WRounded m) x c = f_take div r c /\
+     r mod unit_of div = 0 /\ Z.abs (r - x) < unit_of div /\ (x mod unit_of div = 0 -> r = x) /\
+     ((exists c', f_take_adv div (C25_Round.WRounded m) x c = Ok (c', r)) <-> 0 <= r <= total c - lmax ps)).
+Proof. exact take_adv_rounded. Qed.
+Example C10_rounded_nonvacuous :
+  f_take_adv 2 (C25_Round.WRounded C25_Round.ToNearestMidpointToEven) 25000000000000000 (f_new 1000000000000000000)
+    = Ok ({| fliq := 980000000000000000; flocked := [] |}, 20000000000000000)
+  /\ f_take_adv 2 (C25_Round.WRounded C25_Round.ToPositiveInfinity) 1 {| fliq := 0; flocked := [(5, 1%N)] |} = Err EInsufficient
+  /\ f_take_adv 2 (C25_Round.WRounded C25_Round.ToNegativeInfinity) (-1) (f_new 10) = Err EInvalidAmount.
+Proof. repeat split; vm_compute; reflexivity. Qed.
 
 (* ---- non-fungible containers ----
    NWf c: the liquid ids are distinct and none of them is in the lock table (holds initially and is
@@ -122,6 +147,8 @@ Print Assumptions C10_all_dropped_restores.
 Print Assumptions C10_no_panic.
 Print Assumptions C10_no_panic_other.
 Print Assumptions C10_divisibility.
+Print Assumptions C10_withdraw_exact_is_take.
+Print Assumptions C10_withdraw_rounded.
 Print Assumptions C10_nf_lock_keeps_ids.
 Print Assumptions C10_nf_withdraw_iff.
 Print Assumptions C10_nf_locked_not_withdrawable.
